@@ -249,15 +249,14 @@ fn main()
         out.case(&format!("x {}", hex(s)), &answer(s));
     }
 
-    // grammar-generated (conventional rendering, including the bare negative exponent 2^-1)
+    // grammar-generated (conventional rendering; a negative exponent is parenthesised: 2^(-1))
     let ngen = 1500 * scale;
     for i in 0..ngen
     {
         let depth = 1 + (i % 6) as u32;
         let ovf = rng.below(10) == 0;
         let a = gen_ast(&mut rng, depth, ovf);
-        let bare = rng.below(3) == 0;
-        let c = lay(&a, 0, &mut rng, bare);
+        let c = lay(&a, 0, &mut rng, false);
         let mut s = String::new();
         flatten(&c, &mut s);
         let rest = remainder(&mut rng);
@@ -291,15 +290,25 @@ fn main()
         flatten(&c, &mut body);
         // what may follow a dangling operator / an open parenthesis' content: nothing that can start an expression
         let junk = { let w = ws(&mut rng); let t = *rng.pick(&NOSTART); format!("{}{}", w, t) };
-        match rng.below(3)
+        match rng.below(7)
         {
-            0 => {
+            6 => {
+                // a signed exponent without parentheses: `^` is not followed by an operand of the power level,
+                // i.e. a dangling binary operator; the payload is the text after `^`
+                let a2 = gen_ast(&mut rng, 1, false);
+                let c2 = Cst::N(ws(&mut rng), Box::new(lay(&a2, 2, &mut rng, false)));
+                let mut exp = String::new();
+                flatten(&c2, &mut exp);
+                let s = format!("{}{}^{}", body, ws(&mut rng), exp);
+                out.case(&format!("m {} | negexp invalid {}", hex(&s), exp.chars().count()), &answer(&s));
+            },
+            0 | 3 => {
                 // text that cannot start an expression
                 let tail: String = (0..rng.below(4)).map(|_| *rng.pick(&GARBAGE)).collect();
                 let s = format!("{}{}", junk, if junk.trim_matches(|c: char| c.is_whitespace()).is_empty() { String::new() } else { tail });
                 out.case(&format!("m {} | nostart invalid {}", hex(&s), s.chars().count()), &answer(&s));
             },
-            1 => {
+            1 | 4 => {
                 // dangling binary operator
                 let op = *rng.pick(&["+", "-", "*", "/", "^"]);
                 let w = ws(&mut rng);
